@@ -9,24 +9,33 @@ import time
 REPO = os.environ.get("VERIF_REPO", "/repo")
 
 # property -> claimed level and the stages that decide it
+# stages marked supplementary: a violation there fails the check like any other, but an
+# inconclusive supplementary stage (tool could not run, budget exhausted) is only recorded in the
+# evidence: the deciding oracle of those properties is the native monitor
+SUPPLEMENTARY = {"miri", "nohooks", "stdbuild", "constrained"}
+
 PROPS = {
     "C01": {"level": "exploration", "stages": ["native"]},
-    "C02": {"level": "exploration", "stages": ["native"]},
+    "C02": {"level": "exploration", "stages": ["native", "nohooks"]},
     "C03": {"level": "exploration", "stages": ["native"]},
     "C04": {"level": "fault_enumeration", "stages": ["native"]},
     "C05": {"level": "exploration", "stages": ["native"]},
-    "C06": {"level": "exploration", "stages": ["native"]},
+    "C06": {"level": "exploration", "stages": ["native", "nohooks", "constrained", "miri"]},
     "C07": {"level": "exploration", "stages": ["native"]},
     "C08": {"level": "exploration", "stages": ["native"]},
-    "C09": {"level": "exploration", "stages": ["native"]},
+    "C09": {"level": "exploration", "stages": ["native", "stdbuild"]},
     "C10": {"level": "exploration", "stages": ["native"]},
-    "C11": {"level": "fault_enumeration", "stages": ["native"]},
-    "C12": {"level": "exploration", "stages": ["native"]},
+    "C11": {"level": "fault_enumeration", "stages": ["native", "nohooks", "miri"]},
+    "C12": {"level": "exploration", "stages": ["native"], "thorough_extra": ["miri"]},
     "C13": {"level": "exploration", "stages": ["native"]},
     "C14": {"level": "exploration", "stages": ["c14"]},
     "C15": {"level": "exploration", "stages": ["c15"]},
-    "C16": {"level": "exploration", "stages": ["native"]},
+    "C16": {"level": "exploration", "stages": ["native", "miri"]},
 }
+
+# number of interpreter processes per tier
+MIRI_SHARDS = {"quick": 8, "thorough": 16}
+MIRI_TIMEOUT = {"quick": 900, "thorough": 3600}
 
 WATCHDOG = {"quick": 45 * 60, "thorough": 5 * 3600}
 
@@ -65,6 +74,7 @@ class Run:
         self.replay_dir = os.environ.get("VERIF_REPLAY_DIR", os.path.join(root, "replays"))
         os.makedirs(self.evidence_dir, exist_ok=True)
         self.docs = []  # (stage name, result document)
+        self.supplementary_notes = []
         self.calibration = []
         self.t0 = time.time()
         self.env = {
@@ -118,6 +128,124 @@ class Run:
         if code != 0 or not os.path.exists(out):
             raise Inconclusive(f"native driver failed (exit {code}): " + text[-600:])
         return json.load(open(out))
+
+    # ------------------------------------------------------------------ supplementary stages
+    def stage_nohooks(self):
+        """the same driver built WITHOUT the verif_hooks feature (production type-code table, no
+        hook module), reduced workload"""
+        try:
+            hbsmon = self.build_hbsmon(hooks=False)
+        except Inconclusive as e:
+            return {"inconclusive": [str(e)[:600]]}
+        out = os.path.join(self.results, f"{self.prop}-nohooks.json")
+        if os.path.exists(out):
+            os.remove(out)
+        env = dict(self.env); env["VERIF_SCALE"] = os.environ.get("VERIF_SCALE", "1.0")
+        code, text = sh([hbsmon, self.prop, "--tier", self.tier, "--seed", str(self.seed), "--out", out], cwd=self.root, env=env, timeout=WATCHDOG[self.tier])
+        if code != 0 or not os.path.exists(out):
+            return {"inconclusive": [f"hooks-off driver failed (exit {code}): " + text[-400:]]}
+        return json.load(open(out))
+
+    # builds with reduced HBS_LMS_* limits in which the hostile-input drivers are run as well
+    # (fixed-capacity containers are sized from these limits); the target directories are shared
+    # with the C14 stage
+    CONSTRAINED = [
+        # (name, levels, heights, winternitz, quick?)
+        ("L1", 1, "25", "1", True),
+        ("L3-h10-5-5-w8-4-2", 3, "10, 5, 5", "8, 4, 2", True),
+        ("L2-h5-10", 2, "5, 10", "1, 1", False),
+        ("L5", 5, "25, 25, 25, 25, 25", "1, 1, 1, 1, 1", False),
+    ]
+
+    def stage_constrained(self):
+        from concurrent.futures import ThreadPoolExecutor
+        base = os.path.join(self.root, "target", "c14")
+        os.makedirs(base, exist_ok=True)
+        configs = [c for c in self.CONSTRAINED if c[4] or self.tier == "thorough"]
+
+        def one(cfg):
+            name, lv, hs, ws, _ = cfg
+            tdir = os.path.join(base, name)
+            env = {"HBS_LMS_MAX_ALLOWED_HSS_LEVELS": str(lv), "HBS_LMS_TREE_HEIGHTS": hs, "HBS_LMS_WINTERNITZ_PARAMETERS": ws}
+            code, out = sh(["cargo", "build", "--release", "--offline", "-p", "hbsmon", "--target-dir", tdir], cwd=self.harness, env=env, timeout=1800)
+            if code != 0:
+                return name, {"inconclusive": [f"build with configuration {name} failed: " + out[-300:]]}
+            res = os.path.join(self.results, f"{self.prop}-constrained-{name}.json")
+            if os.path.exists(res):
+                os.remove(res)
+            renv = dict(self.env); renv["VERIF_SCALE"] = "0.5"; renv["VERIF_BUILD_CONFIG"] = name
+            c, text = sh([os.path.join(tdir, "release", "hbsmon"), self.prop, "--tier", self.tier, "--seed", str(self.seed), "--out", res, "--threads", "8"], cwd=self.root, env=renv, timeout=WATCHDOG[self.tier])
+            if c != 0 or not os.path.exists(res):
+                return name, {"inconclusive": [f"driver of the build with configuration {name} failed (exit {c}): " + text[-300:]]}
+            d = json.load(open(res))
+            for v in d.get("violations", []):
+                v["key"] = v["key"] + f":build={name}"
+                v["what"] = f"[build HBS_LMS_MAX_ALLOWED_HSS_LEVELS={lv} HBS_LMS_TREE_HEIGHTS='{hs}' HBS_LMS_WINTERNITZ_PARAMETERS='{ws}'] " + v["what"]
+            # a constrained build refuses most of the default workload's keys: what it did observe is in its counters
+            d["inconclusive"] = [w for w in d.get("inconclusive", []) if "reference tool" not in w]
+            return name, d
+
+        with ThreadPoolExecutor(len(configs)) as ex:
+            docs = list(ex.map(one, configs))
+        merged = self.merge_docs(docs)
+        merged["counters"]["constrained_builds"] = len(configs)
+        return merged
+
+    def stage_stdbuild(self):
+        """the same driver against the library built with its `std` feature (the configuration in
+        which process-wide or per-thread state could exist at all)"""
+        target = os.path.join(self.harness, "target-std")
+        code, out = sh(["cargo", "build", "--release", "--offline", "-p", "hbsmon", "--features", "std", "--target-dir", target], cwd=self.harness, timeout=1800)
+        if code != 0:
+            return {"inconclusive": ["build with the library's std feature failed: " + out[-400:]]}
+        res = os.path.join(self.results, f"{self.prop}-std.json")
+        if os.path.exists(res):
+            os.remove(res)
+        c, text = sh([os.path.join(target, "release", "hbsmon"), self.prop, "--tier", self.tier, "--seed", str(self.seed + 1), "--out", res], cwd=self.root, env=self.env, timeout=WATCHDOG[self.tier])
+        if c != 0 or not os.path.exists(res):
+            return {"inconclusive": [f"driver of the std build failed (exit {c}): " + text[-400:]]}
+        return json.load(open(res))
+
+    def stage_miri(self):
+        """the driver's hashing-poor subset under the Miri interpreter, sharded over processes"""
+        from concurrent.futures import ThreadPoolExecutor
+        tdir = os.path.join(self.root, "target", "miri")
+        n = MIRI_SHARDS[self.tier]
+        base_env = dict(self.env)
+        base_env.update({"VERIF_MIRI": "1", "MIRIFLAGS": "-Zmiri-disable-isolation", "CARGO_TARGET_DIR": tdir})
+        # build once (cargo miri run builds on demand; doing it up front keeps the shards from queueing on the lock)
+        code, out = sh(["cargo", "+nightly", "miri", "run", "--offline", "-p", "hbsmon", "--", "none"], cwd=self.harness, env=base_env, timeout=3000)
+        if "unknown property none" not in out:
+            if "Undefined Behavior" in out:
+                return {"violations": [{"key": f"{self.prop}:miri:startup", "what": "Miri reports undefined behaviour before the driver starts", "count": 1, "replay": {"output": out[-3000:]}}]}
+            return {"inconclusive": ["Miri build of the harness failed: " + out[-400:]]}
+
+        def shard(k):
+            res = os.path.join(self.results, f"{self.prop}-miri-{k}.json")
+            if os.path.exists(res):
+                os.remove(res)
+            c, text = sh(["cargo", "+nightly", "miri", "run", "--offline", "-p", "hbsmon", "--", self.prop, "--tier", self.tier, "--seed", str(self.seed),
+                          "--out", res, "--threads", "1", "--shard", f"{k}/{n}"], cwd=self.harness, env=base_env, timeout=MIRI_TIMEOUT[self.tier])
+            name = f"shard{k}"
+            if c == 0 and os.path.exists(res):
+                d = json.load(open(res))
+                d.setdefault("counters", {})["miri_processes"] = 1
+                return name, d
+            if c is None:
+                return name, {"inconclusive": [f"interpreter shard {k}/{n} exceeded its wall-clock budget"]}
+            if "Undefined Behavior" in text or "data race" in text.lower():
+                first = [l for l in text.splitlines() if l.startswith("error")]
+                frames = [l.strip() for l in text.splitlines() if "/repo/" in l or "hbs_lms" in l][:3]
+                return name, {"violations": [{"key": f"{self.prop}:miri:" + (first[0][:160] if first else "undefined behaviour"),
+                                              "what": "Miri reports undefined behaviour while running the driver's subset: " + " | ".join(frames)[:300], "count": 1,
+                                              "replay": {"shard": f"{k}/{n}", "output": text[-3000:]}}]}
+            return name, {"inconclusive": [f"interpreter shard {k}/{n} failed without an undefined-behaviour report (exit {c}): " + text[-300:]]}
+
+        with ThreadPoolExecutor(n) as ex:
+            docs = list(ex.map(shard, range(n)))
+        merged = self.merge_docs(docs)
+        merged["counters"]["miri_shards"] = n
+        return merged
 
     # ------------------------------------------------------------------ C14: one build per configuration
     C14_CONFIGS = [
@@ -312,7 +440,7 @@ class Run:
         def tsan():
             tdir = os.path.join(base, "tsan")
             env = {"HBS_LMS_THREADS": "8", "HBS_LMS_MAX_HASH_OPTIMIZATIONS": "100", "RUSTFLAGS": "-Zsanitizer=thread"}
-            code, out = sh(["cargo", "+nightly", "build", "-Zbuild-std", "--target", "x86_64-unknown-linux-gnu", "--release", "--offline", "-p", "hbsmon", "--features", "fv", "--target-dir", tdir], cwd=self.harness, env=env, timeout=3000)
+            code, out = sh(["cargo", "+nightly", "build", "-Zbuild-std", "--target", "x86_64-unknown-linux-gnu", "--release", "--offline", "-p", "hbsmon", "--no-default-features", "--features", "fv", "--target-dir", tdir], cwd=self.harness, env=env, timeout=3000)
             if code != 0:
                 return "tsan", {"inconclusive": ["ThreadSanitizer build failed: " + out[-300:]]}
             binp = os.path.join(tdir, "x86_64-unknown-linux-gnu", "release", "hbsmon")
@@ -415,7 +543,7 @@ class Run:
 
     def execute(self):
         spec = PROPS[self.prop]
-        for st in spec["stages"]:
+        for st in spec["stages"] + (spec.get("thorough_extra", []) if self.tier == "thorough" else []):
             fn = getattr(self, "stage_" + st)
             doc = fn()
             if doc is not None:
@@ -430,9 +558,14 @@ class Run:
                     known_seen.append((v, known[v["key"]]))
                 else:
                     violations.append((st, v))
-            inconclusive += [f"{st}: {w}" for w in doc.get("inconclusive", [])]
+            if st in SUPPLEMENTARY:
+                self.supplementary_notes += [f"{st}: {w}" for w in doc.get("inconclusive", [])]
+            else:
+                inconclusive += [f"{st}: {w}" for w in doc.get("inconclusive", [])]
         wall = time.time() - self.t0
         self.write_evidence(wall, violations=violations, known_seen=known_seen, inconclusive=inconclusive)
+        for w in self.supplementary_notes:
+            print(f"NOTE: property={self.prop} supplementary stage inconclusive: {w[:300]}")
         for v, f in known_seen:
             print(f"KNOWN-FINDING: property={self.prop} {f['key']} {f.get('what', v['what'])} (seen {v.get('count', 1)}x)")
         if violations:
@@ -485,6 +618,7 @@ class Run:
         cov["calibration"] = self.calibration
         cov["known_findings_seen"] = [{"key": f["key"], "count": v.get("count", 1)} for v, f in known_seen]
         cov["inconclusive"] = list(inconclusive)
+        cov["supplementary_stages_inconclusive"] = list(self.supplementary_notes)
         cov["violation_keys"] = [v["key"] for _, v in violations]
         cov["verdict"] = "violated" if violations else ("inconclusive" if inconclusive else "held on what was observed")
         ev = {
